@@ -70,6 +70,9 @@ int vk_rotation(int nwait);		/* rotation of the ready order for this wait */
 int vk_is_main_pollfds(const void *pfds);	/* poll(): is this the loop's main array? */
 void vk_end(const char *why) __attribute__((noreturn));
 
+extern void (*vk_block_hook)(int (*ready)(void *), void *ctx, long long deadline);
+extern void (*vk_yield_hook)(void);
+
 struct vk_fd *vk_get(int fd);
 void vk_user_fd(int i);			/* (re)create scripted descriptor 100+i, open, no conditions */
 int vk_cond(int fd);			/* current condition bits of any virtual descriptor */
